@@ -8,7 +8,8 @@
    under the distinct-record-names hypothesis of C06). *)
 From Coq Require Import List String Ascii.
 From PC Require Import Base.Codes Comp.Syntax Comp.Compile Comp.Denote Comp.EmitProofs Comp.DummyProofs
-  Design.Designer Design.Results Design.ResultsProofs Design.CrossProofs Design.EndToEnd Finish.Apply.
+  Design.Designer Design.Results Design.ResultsProofs Design.CrossProofs Design.EndToEnd Finish.Apply
+  Base.Sexp Comp.WfPil Comp.NameProofs Sys.System Sys.SysWfPil Sys.SysDesign Design.EndToEndNames.
 Import ListNotations.
 
 Theorem C14_flat_ignores_dummy : forall c l1 x l2, base_len (c_bases c) (fst x) = 0 ->
@@ -63,3 +64,26 @@ Theorem C14_finisher_accepts : forall ctr prefix d body c ctr',
            (NoDup (map fst recs) -> exists f, apply_comp (table_of recs) c = OK f)).
 Proof. exact compiled_component_end_to_end. Qed.
 Print Assumptions C14_finisher_accepts.
+
+(* the same for whole nested systems, designer front-end: what the compiler writes - zero-length members of ports,
+   strands and super-sequences included - passes the well-formedness predicate, loads, and gets arrays or the report *)
+Theorem C14_system_designer_accepts : forall fs includes ctr basename args lines ctr',
+  compile_top fs includes ctr basename args [] = OK (lines, ctr') ->
+  (forall o, load_file fs includes 12 ctr basename args "" "." = OK (o, ctr') -> names_ok 12 o) ->
+  (forall n k len, In (PSeq n k len) lines -> valid_template k = true) ->
+  wf_pil lines = true /\ (exists p, load_spec lines pspec0 = OK p) /\
+  (design_arrays lines false = DOver \/ exists e w s, design_arrays lines false = DOk e w s).
+Proof. exact compiled_system_designs. Qed.
+Print Assumptions C14_system_designer_accepts.
+
+(* the finisher clause without a hypothesis on the records (names without '*', as the grammar yields them) *)
+Theorem C14_finisher_accepts_unconditional : forall ctr prefix d body c ctr',
+  compile_comp ctr prefix d body = OK (c, ctr') -> (forall st, In st body -> stmt_nostar st) -> nostar prefix ->
+  (forall n b, In (n, b) (c_bases c) -> valid_template (b_const b) = true) ->
+  exists p lay g, load_spec (emit_comp c) pspec0 = OK p /\ seed p false = OK (lay, g) /\
+    (get_constraints p false = DOver \/
+     exists e w s, get_constraints p false = DOk e w s /\
+       forall nts, fits nts e w ->
+         exists a recs, process_results p lay nts = OK a /\ output_records p a = OK recs /\ exists f, apply_comp (table_of recs) c = OK f).
+Proof. exact compiled_component_end_to_end_names. Qed.
+Print Assumptions C14_finisher_accepts_unconditional.
